@@ -27,6 +27,12 @@ INDIRECT = {
     'C20': {'step-not-guarded'},
 }
 
+# checks that only borrow the K2 machinery for clean (crash-free) reopen cycles
+DIRECT.setdefault('C05', {'api-error', 'read-vs-spec', 'scan-vs-spec', 'harness-crash', 'layout-mismatch'})
+INDIRECT.setdefault('C05', set())
+DIRECT.setdefault('C17', {'api-error', 'layout-mismatch', 'harness-crash'})
+INDIRECT.setdefault('C17', set())
+
 def snapshot_only(p):
     """problem concerns a read at a snapshot (C06) rather than at the latest sequence (C01)"""
     op = p.get('op', '')
